@@ -198,6 +198,5 @@ Definition otto_def_array (o : obj) (k : key) (d : desc) (throw : bool) : obj * 
     end
   end.
 
-(* builtinArrayReverse asks hasProperty for both elements before it reads either value (finding class 13) *)
 Definition otto : dialect :=
-  mkDia otto_def_array otto_rel otto_cnt otto_indexof otto_lastindexof true.
+  mkDia otto_def_array otto_rel otto_cnt otto_indexof otto_lastindexof.
